@@ -177,8 +177,14 @@ def match(prog, run):
         if sp.kind == "W":
             k = sub.get(sid, 0)
             exp = list(reversed(sp.gates))       # last listed acts first
-            if regs != sp.q or cls != CLS[exp[k]]:
-                raise Mismatch(f"wrapper {sp.text()}: position {k} executed {cls} on {regs}, expected {CLS[exp[k]]} (last listed gate first)")
+            wn = getattr(sp, "noise", None)
+            if isinstance(wn, tuple) and wn and wn[0] == "single":
+                # one noise object for the whole wrapper: unwrap() adds an Identity that carries it, executed before the first
+                # gate ("before") or after the last one ("after")
+                exp = (exp + ["I*"]) if wn[1][2] else (["I*"] + exp)
+            want_cls = "Identity" if exp[k] == "I*" else CLS[exp[k]]
+            if regs != sp.q or cls != want_cls:
+                raise Mismatch(f"wrapper {sp.text()}: position {k} executed {cls} on {regs}, expected {want_cls} (last listed gate first)")
             out.append((sp, exp[k], ev))
             sub[sid] = k + 1
             if k + 1 == len(exp):
